@@ -721,6 +721,72 @@ def r4_bounds(repo, report):
               why=(bad[0][0] + ": " + str(bad[0][1])[:200]) if bad else "")
 
 
+def _finder_is_the_adapters_own(repo, report):
+    """Each adapter searches with the prefilter built for ITS configuration: self.kmer_finder is the result of
+    self._kmer_finder().  If finders are shared through a table, the key must contain everything the builders read from
+    the adapter (type, sequence, rate, overlap, both wildcard flags, indels, and the ;anywhere flag) - a finder built for
+    another placement rejects occurrences this adapter admits."""
+    from ..repo import expand
+    c, init = repo.need_method("SingleAdapter", "__init__")
+    st = [n for n in ast.walk(init) if isinstance(n, ast.Assign) and any(chain(t) == "self.kmer_finder" for t in n.targets)]
+    if len(st) != 1:
+        raise Unrecognised("SingleAdapter.__init__: one assignment to self.kmer_finder expected", repo.loc(init))
+    v = expand(init, st[0].value)
+    if isinstance(v, ast.Call) and chain(v.func) == "self._kmer_finder" and not v.args and not v.keywords:
+        report.ob("C07.R2", "each adapter builds its own prefilter", True, facts={"assigned": src(v)}, expected="self.kmer_finder = self._kmer_finder()", loc=repo.loc(st[0]))
+        return
+    # shared: collect what the builders depend on
+    needs = set()
+    for cls in [repo.cls("SingleAdapter")] + repo.subclasses("SingleAdapter"):
+        for mname in ("_kmer_finder", "_make_kmer_finder"):
+            m_ = cls.methods.get(mname)
+            if m_ is None:
+                continue
+            needs |= {x.attr for x in ast.walk(m_) if isinstance(x, ast.Attribute) and isinstance(x.value, ast.Name) and x.value.id == "self" and isinstance(x.ctx, ast.Load)
+                      and x.attr not in ("_make_kmer_finder", "_kmer_finder", "_debug", "aligner")}
+    if isinstance(v, ast.Subscript):
+        key = expand(init, v.slice)
+        have = {x.attr for x in ast.walk(key) if isinstance(x, ast.Attribute) and isinstance(x.value, ast.Name) and x.value.id == "self"}
+        typed = any(isinstance(x, ast.Call) and chain(x.func) == "type" for x in ast.walk(key)) or "__class__" in have
+        missing = sorted(needs - have) + ([] if typed else ["type(self)"])
+        report.ob("C07.R2", "each adapter builds its own prefilter", not missing, facts={"assigned": src(v)[:120], "key": src(key)[:200], "builders_read": sorted(needs), "missing_from_key": missing}, loc=repo.loc(st[0]),
+                  expected="self.kmer_finder = self._kmer_finder(), or a shared table keyed by everything the builders read",
+                  why=(f"prefilters are shared under a key without {missing}: an adapter differing only in that setting (e.g. 'SEQ;anywhere' after 'SEQ') searches with the other adapter's windows and loses occurrences it admits" if missing else ""))
+        return
+    report.unrecognised("C07.R2", "each adapter builds its own prefilter", f"self.kmer_finder = {src(v)[:100]}", repo.loc(st[0]))
+
+
+def _kmer_sets_reach_finder_unchanged(repo, report):
+    """SingleAdapter._make_kmer_finder may move the windows of the search entries (widening for indels) but hands the
+    k-mer LISTS of create_positions_and_kmers to KmerFinder as they are: an entry is satisfied by ANY of its k-mers, so
+    taking one out (e.g. an all-N k-mer, which every read contains) makes the entry stricter than the pigeonhole argument
+    allows."""
+    c, fn = repo.need_method("SingleAdapter", "_make_kmer_finder")
+    kf = [x for x in ast.walk(fn) if isinstance(x, ast.Call) and chain(x.func) == "KmerFinder" and x.args]
+    if len(kf) != 1 or not isinstance(kf[0].args[0], ast.Name):
+        raise Unrecognised("_make_kmer_finder: KmerFinder(<entries>, ...) not found", repo.loc(fn))
+    v = kf[0].args[0].id
+    binds = [n for n in ast.walk(fn) if isinstance(n, ast.Assign) and any(isinstance(t, ast.Name) and t.id == v for t in n.targets)]
+    origin = [b for b in binds if isinstance(b.value, ast.Call) and chain(b.value.func) == "create_positions_and_kmers"]
+    bad = []
+    for b in binds:
+        if b in origin:
+            continue
+        e = b.value
+        ok = isinstance(e, (ast.ListComp, ast.GeneratorExp)) or (isinstance(e, ast.Call) and chain(e.func) in ("list", "tuple") and e.args and isinstance(e.args[0], (ast.ListComp, ast.GeneratorExp)))
+        comp = e if isinstance(e, (ast.ListComp, ast.GeneratorExp)) else (e.args[0] if ok else None)
+        if comp is None or len(comp.generators) != 1 or comp.generators[0].ifs or chain(comp.generators[0].iter) != v or not isinstance(comp.generators[0].target, ast.Tuple) or len(comp.generators[0].target.elts) != 3 \
+                or not isinstance(comp.elt, ast.Tuple) or len(comp.elt.elts) != 3:
+            bad.append(f"line {b.lineno}: {src(e)[:100]}")
+            continue
+        third = comp.generators[0].target.elts[2]
+        if not (isinstance(third, ast.Name) and isinstance(comp.elt.elts[2], ast.Name) and comp.elt.elts[2].id == third.id):
+            bad.append(f"line {b.lineno}: the k-mer list of an entry becomes {src(comp.elt.elts[2])[:80]}")
+    report.ob("C07.R5", "_make_kmer_finder hands the k-mer lists to the finder unchanged", len(origin) == 1 and not bad, facts={"rebindings": len(binds) - len(origin), "problems": bad[:2]}, loc=repo.loc(fn),
+              expected=f"{v} = create_positions_and_kmers(...); later rebindings only map (start, stop, kmers) -> (start', stop', kmers)",
+              why=(f"{bad[0]}: k-mers are removed from (or entries dropped out of) the search sets after they were built, so a read whose only intact chunk is the removed k-mer is rejected by the prefilter although the aligner would accept it" if bad else ""))
+
+
 def _no_kmer_dropped(repo, report):
     """remove_redundant_kmers / minimize_kmer_search_list only regroup: every k-mer of every search set is passed on
     (an over-long k-mer must reach KmerFinder, whose ValueError triggers the always-true fallback)"""
@@ -748,6 +814,8 @@ def _no_kmer_dropped(repo, report):
 
 def r5_word(repo, report):
     _no_kmer_dropped(repo, report)
+    _kmer_sets_reach_finder_unchanged(repo, report)
+    _finder_is_the_adapters_own(repo, report)
     c, fn = repo.need_method("KmerFinder", "__cinit__")
     inner = [n for n in ast.walk(fn) if isinstance(n, ast.While)]
     if len(inner) < 2:
